@@ -444,6 +444,8 @@ class Interp:
             t = z3.Int(self.namer.fresh(label))
             self.assume(sor(*[t == c for c in dom]))
             return VAtom(t)
+        if isinstance(spec, str) and spec.startswith("exc:"):
+            return VExc(self.world.resolve_class(spec[4:]), origin=label, exact=False)
         if isinstance(spec, str) and spec.startswith("opt:"):
             if self.choose(2, "opt " + label) == 0:
                 return atom(None)
@@ -1017,6 +1019,9 @@ class Interp:
 
     def getattr(self, v, attr, node):
         st = self.st
+        from .codec import VOpt
+        if isinstance(v, VOpt) and st.spec:
+            return self.getattr(v.val, attr, node)   # clauses guard None-ness themselves
         if isinstance(v, VObj):
             key = (v.oid, attr)
             if key in st.heap:
@@ -1052,6 +1057,8 @@ class Interp:
             for o in self.live_olds + ([st.old] if st.old is not None else []):
                 if key not in o.heap:
                     o.heap[key] = val
+                    if isinstance(val, VList) and val.oid in st.lists and val.oid not in o.lists:
+                        o.lists[val.oid] = st.lists[val.oid].copy()
             if self.live_heap is not None and key not in self.live_heap:
                 self.live_heap[key] = val
             return val
@@ -1084,6 +1091,8 @@ class Interp:
                     raise _PathEnd()
                 o = sym.ATOMS.obj(dom[k])
             if o is None or not hasattr(o, attr):
+                if self.st.spec:
+                    return VOpaque("attribute of None in a specification")   # total in clauses
                 self.note_safe("SAFE-None", _src(node), getattr(node, "lineno", 0))
                 self.throw(AttributeError, node, "SAFE-None")
             m = getattr(o, attr)
@@ -1107,6 +1116,8 @@ class Interp:
         r = self.world.getattr_ext(self, v, attr, node)
         if r is not None:
             return r
+        if self.st.spec and isinstance(v, VOpaque):
+            return VOpaque("attribute of an undefined value in a specification")
         raise Unsupported(f"attribute {attr} of {v!r}")
 
     def setattr(self, v, attr, val, node):
@@ -1270,6 +1281,9 @@ class Interp:
         kwargs = {}
         for kw in node.keywords:
             if kw.arg is None:
+                if isinstance(f, VDyn):
+                    self.ev(kw.value)   # **mapping passed to a user callable: havocked anyway
+                    continue
                 raise Unsupported("**kwargs call")
             kwargs[kw.arg] = self.ev_arg(kw.value)
         return self.call(f, args, kwargs, node)
@@ -1510,6 +1524,8 @@ class Interp:
             for g in c.ghost_modifies:
                 self.ghost_get(g)
                 st.ghost[g] = VInt(z3.Int(self.namer.fresh("ghost_" + g)))
+            for g in c.ghost_calls:
+                self.ghost_bump(g)   # the ghost counts the calls of this function
         # outcomes: normal + each declared exception class
         outcomes = ["normal"] + list(c.raises)
         if c.no_return:
@@ -1519,6 +1535,8 @@ class Interp:
         if outcome == "normal":
             res = self.fresh(c.returns, ref.short + "_ret") if c.returns else atom(None)
             env2 = dict(env)
+            if "result" in env2:
+                env2["arg_result"] = env2["result"]
             env2["result"] = res
             for clause in c.ensures:
                 self.assume(self.spec_eval(clause, env2, ref, old=old))
@@ -1609,6 +1627,20 @@ class Interp:
         if name == "ite":
             c, a, b2 = node.args
             return self.merge(self.truth(self.ev(c)), self.ev(a), self.ev(b2))
+        if name == "forall_ref":
+            from .refs import RefS, VRef
+            var, cname, body = node.args
+            bv = z3.Const(self.namer.fresh(var.id), RefS)
+            saved = st.env.get(var.id)
+            st.env[var.id] = VRef(bv, self.world.resolve_class(cname.value))
+            try:
+                p = self.truth(self.ev(body))
+            finally:
+                if saved is None:
+                    st.env.pop(var.id, None)
+                else:
+                    st.env[var.id] = saved
+            return VBool(z3.ForAll([bv], p))
         if name == "forall_int":
             *vars_, body = node.args
             bvs = []
@@ -1893,6 +1925,10 @@ class Interp:
             v.origin = v.origin or _src(node)
             v.lineno = node.lineno
             raise _Raise(v)
+        if isinstance(v, VDyn):
+            # `raise <value>`: an exception object supplied by the caller (some Exception)
+            raise _Raise(VExc(Exception, origin=_src(node), okind="RAISES", exact=False,
+                              lineno=node.lineno))
         r = self.world.raise_ext(self, v, node)
         raise Unsupported(f"raise of {v!r}")
 
@@ -2189,6 +2225,10 @@ class Interp:
     def ex_FunctionDef(self, node):
         self.st.env[node.name] = VFunc(None, builtin="closure", name=node.name,
                                        recv=VConst((node, self.st.env)))
+
+    def ex_AsyncFunctionDef(self, node):
+        # defining a coroutine function executes nothing; calling it yields an opaque awaitable
+        self.st.env[node.name] = VFunc(None, builtin="async_def", name=node.name)
 
     def ex_Import(self, node):
         raise Unsupported("import statement")
